@@ -58,6 +58,7 @@ type CaseSpec struct {
 	Name  string     `json:"name"`
 	Ops   []OpSpec   `json:"ops"`
 	Reads []ReadSpec `json:"reads"`
+	Tail  []OpSpec   `json:"tail"` // sent to the child after P5; then the parent is read again (P6)
 }
 
 var metaNames = []string{"json_schema", "schema", "schema_batch"}
@@ -677,6 +678,13 @@ func runCase(t *table, cs CaseSpec, run *lib.Run) string {
 	datastore.CloseReopenTest()
 	obs(child)  // P4
 	obs(parent) // P5
+	r.parent, r.uuid, r.locked = parent, child, false
+	r.compiled = r.schemaAt != ""
+	tail := []string{}
+	for _, op := range cs.Tail {
+		tail = append(tail, r.exec(op))
+	}
+	obs(parent) // P6
 
 	// regexp oracle
 	strs := []string{}
@@ -725,7 +733,7 @@ func runCase(t *table, cs CaseSpec, run *lib.Run) string {
 		}
 		reads = append(reads, fmt.Sprintf("(%s (%s, [%s]))", strings.Join(lets, " "), r.reqTerm(rs), strings.Join(refs, ";")))
 	}
-	return fmt.Sprintf("mkCase\n   [%s]\n   [%s]\n   [%s]", strings.Join(hist, ";\n    "), strings.Join(rx, ";"), strings.Join(reads, ";\n    "))
+	return fmt.Sprintf("mkCase\n   [%s]\n   [%s]\n   [%s]\n   [%s]", strings.Join(hist, ";\n    "), strings.Join(rx, ";"), strings.Join(reads, ";\n    "), strings.Join(tail, ";\n    "))
 }
 
 func main() {
@@ -759,6 +767,11 @@ func main() {
 	dv.Quiet()
 	dv.Open()
 	terms := make([]string, len(specs))
+	for i := range specs {
+		if specs[i].Tail == nil && o.Replay == "" {
+			specs[i].Tail = defaultTail(specs[i])
+		}
+	}
 	for i, cs := range specs {
 		terms[i] = runCase(t, cs, run)
 	}
@@ -783,6 +796,19 @@ func main() {
 		rule = "replay"
 	}
 	run.Finish("c16case", rule, tail)
+}
+
+// two writes on the child: delete the first key the history posted, post a fresh annotation
+func defaultTail(cs CaseSpec) []OpSpec {
+	tail := []OpSpec{}
+	for _, op := range cs.Ops {
+		if op.Kind == "post" && op.Key != 0 {
+			tail = append(tail, OpSpec{Kind: "delete", Key: op.Key})
+			break
+		}
+	}
+	return append(tail, OpSpec{Kind: "post", Key: 149, Body: `{"bodyid":149,"a":1,"s":"x","zz":"tail"}`},
+		OpSpec{Kind: "metapost", Meta: 1, Val: `{"tail":1}`})
 }
 
 func hashSpec(cs CaseSpec) uint32 {
